@@ -450,6 +450,13 @@ impl<'a, C: Crypto + 'a> CaseInitiator<'a, C> {
                 .compute_sigma3_signature(crypto, fabric, &mut tmp_buf[..], signature)
         })?;
 
+        // The Sigma3 key is derived from the transcript up to and including Sigma2.
+        // `send_with` can call its closure again for an MRP retransmission, after Sigma3
+        // itself was added to the transcript: take the hash now, so that every Sigma3
+        // is byte-identical (same key, same nonce, same plaintext).
+        let mut tt_hash = crate::crypto::HASH_ZEROED;
+        initiator.casep.current_tt_hash(&mut tt_hash)?;
+
         // Step 7: Build and send Sigma3
         let mut tt_updated = false;
         exchange
@@ -459,9 +466,13 @@ impl<'a, C: Crypto + 'a> CaseInitiator<'a, C> {
 
                     tw.start_struct(&TLVTag::Anonymous)?;
                     tw.str_cb(&TLVTag::Context(1), |buf| {
-                        initiator
-                            .casep
-                            .sigma3_encrypt(crypto, fabric, signature.reference(), buf)
+                        initiator.casep.sigma3_encrypt(
+                            crypto,
+                            fabric,
+                            tt_hash.reference(),
+                            signature.reference(),
+                            buf,
+                        )
                     })?;
                     tw.end_container()?;
 
